@@ -1,6 +1,8 @@
 /-
   C03 — algebra of the RLWE encryption model (`Model/RLWE.lean`) over an arbitrary commutative ring.
-  Everything here is an identity of the ring; norms are in `Proofs/RLWENorm.lean`.
+  Identities of the ring (norms are in `Proofs/RLWENorm.lean`, the conjugate-invariant carrier in `Proofs/RLWECI.lean`),
+  plus, at the end, the exactness of `RQ.extSmall` on small integer polynomials and the acceptance rule
+  `RQ.acceptsBounds` (`ext_coeff_exact`, `RQ.extSmall_ofInts`, `RQ.accepted_ext_exact`, `RQ.rejected_ext_wrong`).
 -/
 import Lattigo.Model.RLWE
 import Mathlib.Tactic.Ring
@@ -281,5 +283,82 @@ theorem decrypt_md {μ : Type} (M : Mont α) (ct : Ct α μ) (sM : α) (pt : Pt 
   simp only [decrypt, Option.map_eq_some_iff] at h
   obtain ⟨v, _, hv⟩ := h
   rw [← hv]
+
+/-! ### `ExtendBasisSmallNormAndCenter` is exact on small values; the acceptance rule guarantees smallness -/
+
+/-- one coefficient: a value with `2|x| < q₀`, stored as its residue modulo `q₀`, is re-centred and reduced
+    modulo `p` to its residue modulo `p` — for EVERY `p > 0` (since fix C03-9 the magnitude is reduced, so `|x|`
+    may exceed `p`) -/
+theorem ext_coeff_exact (q0 p : ℕ) (x : ℤ) (hp : 0 < p) (h1 : 2 * x.natAbs < q0) :
+    (if (x % (q0 : ℤ)).toNat > q0 / 2 then (p - (q0 - (x % (q0 : ℤ)).toNat) % p) % p
+      else (x % (q0 : ℤ)).toNat % p) = (x % (p : ℤ)).toNat := by
+  rcases Int.lt_or_le x 0 with hneg | hpos
+  · obtain ⟨m, hm⟩ : ∃ m : ℕ, x = -(m : ℤ) := ⟨x.natAbs, by omega⟩
+    have hm1 : 0 < m := by omega
+    have hm2 : 2 * m < q0 := by omega
+    have e1 : x % (q0 : ℤ) = ((q0 - m : ℕ) : ℤ) := by
+      rw [hm, show (-(m : ℤ)) = ((q0 - m : ℕ) : ℤ) + (q0 : ℤ) * (-1) by omega, Int.add_mul_emod_self_left]
+      exact Int.emod_eq_of_lt (by omega) (by omega)
+    rw [e1, Int.toNat_natCast, if_pos (by omega)]
+    have e2 : q0 - (q0 - m) = m := by omega
+    rw [e2]
+    have hr : m % p < p := Nat.mod_lt _ hp
+    have e4 : x % (p : ℤ) = (((p - m % p) % p : ℕ) : ℤ) := by
+      have hdiv := Nat.div_add_mod m p
+      rw [hm, Int.natCast_mod]
+      have : (-(m : ℤ)) = ((p - m % p : ℕ) : ℤ) + (p : ℤ) * (-((m / p : ℕ) : ℤ) - 1) := by
+        have : ((p - m % p : ℕ) : ℤ) = (p : ℤ) - ((m % p : ℕ) : ℤ) := by omega
+        rw [this]
+        have h3 : (m : ℤ) = (p : ℤ) * ((m / p : ℕ) : ℤ) + ((m % p : ℕ) : ℤ) := by exact_mod_cast hdiv.symm
+        rw [h3]; ring
+      rw [this, Int.add_mul_emod_self_left]
+    rw [e4, Int.toNat_natCast]
+  · obtain ⟨m, hm⟩ : ∃ m : ℕ, x = (m : ℤ) := ⟨x.natAbs, by omega⟩
+    have hm2 : 2 * m < q0 := by omega
+    have e1 : x % (q0 : ℤ) = (m : ℤ) := by rw [hm]; exact Int.emod_eq_of_lt (by omega) (by omega)
+    rw [e1, Int.toNat_natCast, if_neg (by omega), hm, ← Int.natCast_mod, Int.toNat_natCast]
+
+/-- **`extSmall` is exact on small integer polynomials**: for every chain `q0 :: qs` and every `ps` of positive
+    moduli, every ring type and every integer vector with `2|x| < q₀`, the extension of its reduction modulo `Q`
+    is its reduction modulo `Q ++ P` (all limbs, Q and P, are limbs of ONE integer polynomial). -/
+theorem RQ.extSmall_ofInts (ci : Bool) (q0 : ℕ) (qs ps : List ℕ) (hps : ∀ p ∈ ps, 0 < p) (v : List ℤ)
+    (h1 : ∀ x ∈ v, 2 * x.natAbs < q0) :
+    RQ.extSmall ps ⟨ci, RPoly.ofInts (q0 :: qs) v⟩ = ⟨ci, RPoly.ofInts ((q0 :: qs) ++ ps) v⟩ := by
+  show (⟨ci, { qs := (q0 :: qs) ++ ps, c := (RPoly.ofInts (q0 :: qs) v).c ++ ps.map _ }⟩ : RQ) = _
+  show _ = (⟨ci, { qs := (q0 :: qs) ++ ps, c := ((q0 :: qs) ++ ps).map _ }⟩ : RQ)
+  congr 2
+  rw [List.map_append]
+  congr 1
+  apply List.map_congr_left
+  intro p hp
+  show ((RPoly.ofInts (q0 :: qs) v).c.headD []).map _ = _
+  show (v.map fun (x : ℤ) => (x % (q0 : ℤ)).toNat).map _ = _
+  rw [List.map_map]
+  apply List.map_congr_left
+  intro x hx
+  exact ext_coeff_exact q0 p x (hps p hp) (h1 x hx)
+
+/-- **accepted ⇒ extension exact** (fix C03-10 as a model theorem).  If `NewParameters` accepts the distribution
+    bounds on a chain with an auxiliary modulus (`acceptsBounds q₀ true be2 bs2`), then every error polynomial
+    within the error bound (`2|x| ≤ be2`) and every secret / ephemeral-secret polynomial within the secret bound
+    (`2|x| ≤ bs2`) is extended to `P` EXACTLY by `extSmall` — at every level (limb 0 belongs to every level) and for
+    both ring types. -/
+theorem RQ.accepted_ext_exact (q0 : ℕ) (qs ps : List ℕ) (hps : ∀ p ∈ ps, 0 < p) (be2 bs2 : ℕ)
+    (hacc : RQ.acceptsBounds q0 true be2 bs2 = true) (ci : Bool) (v : List ℤ)
+    (hv : (∀ x ∈ v, 2 * x.natAbs ≤ be2) ∨ (∀ x ∈ v, 2 * x.natAbs ≤ bs2)) :
+    RQ.extSmall ps ⟨ci, RPoly.ofInts (q0 :: qs) v⟩ = ⟨ci, RPoly.ofInts ((q0 :: qs) ++ ps) v⟩ := by
+  simp only [RQ.acceptsBounds, Bool.not_true, Bool.false_or, Bool.and_eq_true, decide_eq_true_eq] at hacc
+  apply RQ.extSmall_ofInts ci q0 qs ps hps v
+  intro x hx
+  rcases hv with h | h
+  · exact Nat.lt_of_le_of_lt (h x hx) hacc.1
+  · exact Nat.lt_of_le_of_lt (h x hx) hacc.2
+
+/-- the rule is sharp: a bound that reaches `q₀/2` admits a value whose extension is WRONG
+    (`q₀ = 5`, `p = 7`, `x = 3`: limb 0 holds 3 ≡ −2, the extension writes −2 mod 7 = 5 ≠ 3). -/
+theorem RQ.rejected_ext_wrong :
+    RQ.acceptsBounds 5 true 6 2 = false ∧
+    RQ.extSmall [7] ⟨false, RPoly.ofInts [5] [3]⟩ ≠ ⟨false, RPoly.ofInts ([5] ++ [7]) [3]⟩ := by
+  decide
 
 end Lattigo.RLWE
